@@ -73,14 +73,16 @@ def main():
     sel = args[1] if len(args) > 1 else ""
     muts = json.loads((VERIF / "mutants" / f"{prop}.json").read_text())
     bad = 0
-    for m in muts:
-        if sel not in m["name"]:
-            continue
-        status, tail, dt = run_one(prop, mutation=m, tier=tier)
-        print(f"{status:8s} {prop} {m['name']} ({dt:.0f}s)", flush=True)
-        if verbose or status not in ("CAUGHT",):
-            print("    " + tail.replace("\n", "\n    "))
-        bad += status != "CAUGHT"
+    from concurrent.futures import ThreadPoolExecutor
+
+    jobs = int(os.environ.get("MUT_JOBS", "4"))
+    todo = [m for m in muts if sel in m["name"]]
+    with ThreadPoolExecutor(jobs) as ex:
+        for m, (status, tail, dt) in zip(todo, ex.map(lambda m: run_one(prop, mutation=m, tier=tier), todo)):
+            print(f"{status:8s} {prop} {m['name']} ({dt:.0f}s)", flush=True)
+            if verbose or status not in ("CAUGHT",):
+                print("    " + tail.replace("\n", "\n    "))
+            bad += status != "CAUGHT"
     return 1 if bad else 0
 
 
